@@ -33,6 +33,10 @@ func prefix27(t *rapid.T, label string) string {
 	}
 }
 
+// requested common prefix: 4 and 5 digits 15% each, 6: 45%, 7: 15%, 8: 10%
+// (an 8-digit pair costs ~80 000 MD5 evaluations, a 6-digit pair ~5 000)
+var hexChoices = []int{4, 4, 4, 4, 4, 4, 5, 5, 5, 5, 5, 5, 6, 6, 6, 6, 6, 6, 6, 6, 6, 6, 6, 6, 6, 6, 6, 6, 6, 6, 7, 7, 7, 7, 7, 7, 8, 8, 8, 8}
+
 type otherShape struct {
 	fixed  string
 	keyLen int
@@ -49,9 +53,9 @@ var otherShapes = []otherShape{
 // search is a pure function of the drawn seed. A search that runs out of budget
 // returns the group found so far (len(UUIDs) may be < 2: nothing to add).
 func DrawGroup(t *rapid.T, label, hash string, mode int) Group {
-	hexd := rapid.SampledFrom([]int{4, 4, 5, 5, 6, 6, 6, 6, 6, 8}).Draw(t, label+"hex")
+	hexd := rapid.SampledFrom(hexChoices).Draw(t, label+"hex")
 	want := 2
-	if hexd <= 5 && rapid.Bool().Draw(t, label+"triple") {
+	if hexd <= 5 && rapid.IntRange(0, 3).Draw(t, label+"triple") < 6-hexd { // 4: half, 5: a quarter
 		want = 3
 	}
 	seed := rapid.Uint64().Draw(t, label+"seed")
@@ -61,7 +65,7 @@ func DrawGroup(t *rapid.T, label, hash string, mode int) Group {
 		sh := rapid.SampledFrom(otherShapes).Draw(t, label+"shape")
 		fixed, keyLen = sh.fixed, sh.keyLen
 	}
-	r := Search(hash, fixed, keyLen, seed, hexd, want, 1<<18)
+	r := Search(hash, fixed, keyLen, seed, hexd, want, Budget(hexd, want))
 	g := Group{Hash: hash, Hex: hexd, Tried: r.Tried, Keys: r.Keys, Weights: r.Weights}
 	for i, k := range r.Keys {
 		u := k
@@ -74,6 +78,29 @@ func DrawGroup(t *rapid.T, label, hash string, mode int) Group {
 	}
 	g.measure()
 	return g
+}
+
+// Budget is the number of candidates a search for `want` keys sharing hexd hex
+// digits may examine: far above the birthday expectation (a pair needs about
+// 1.25*2^(2*hexd) candidates, a triple about 1.8*2^(8*hexd/3)), so that running
+// out is rare (8 digits: ~3 in 10 000 searches), and capped at 2^18.
+func Budget(hexd, want int) int {
+	b := 1 << 18
+	switch {
+	case want == 2 && hexd <= 4:
+		b = 1 << 12
+	case want == 2 && hexd == 5:
+		b = 1 << 14
+	case want == 2 && hexd == 6:
+		b = 1 << 15
+	case want == 2 && hexd == 7:
+		b = 1 << 17
+	case want == 3 && hexd <= 4:
+		b = 1 << 14
+	case want == 3 && hexd == 5:
+		b = 1 << 16
+	}
+	return b
 }
 
 // DrawPinned picks one of the precomputed pairs (10..16 common hex digits).
